@@ -33,6 +33,10 @@ pub struct Obs {
     pub commits_tracked: u64,
     pub external_proposals: u64,
     pub snapshots: u64,
+    /// A second observer run the "stateless server" way (examples/basic_server_usage.rs): it exists only as snapshot bytes
+    /// between messages; proposals are kept outside as `cached_proposal()` bytes and re-inserted before each commit.
+    stateless: Option<Vec<u8>>,
+    stateless_cached: Vec<Vec<u8>>,
 }
 
 impl Obs {
@@ -82,6 +86,8 @@ impl Obs {
         });
         match g {
             Ok(g) => {
+                self.stateless = g.snapshot().to_bytes().ok();
+                self.stateless_cached.clear();
                 self.group = Some(g);
                 self.client = Some(client);
                 self.start_epoch = w.epoch;
@@ -94,7 +100,67 @@ impl Obs {
         }
     }
 
+    /// One message through the stateless observer.
+    fn stateless_step(&mut self, w: &World, kind: &str, bytes: &[u8]) -> CaseResult {
+        let (Some(snap), Some(client)) = (self.stateless.clone(), self.client.as_ref()) else { return Ok(()) };
+        let t = w.now();
+        let mut g = match guard(|| client.load_group(ExternalSnapshot::from_bytes(&snap)?)) {
+            Ok(g) => g,
+            Err(e) if e.is_panic() => return Err(panic_failure(P, "ExternalClient::load_group(stateless)", &e)),
+            Err(e) => return Err(fail(&format!("observer_cannot_restore_snapshot|{}", e.class()), e.text().into())),
+        };
+        if kind == "proposal" {
+            match guard(|| g.process_incoming_message_with_time(MlsMessage::from_bytes(bytes)?, t)) {
+                Ok(ExternalReceivedMessage::Proposal(d)) => {
+                    let c = d.cached_proposal().to_bytes().map_err(|e| fail("cached_proposal_encode", format!("{e:?}")))?;
+                    self.stateless_cached.push(c);
+                    self.ev.class("stateless_observer_proposals_cached_outside");
+                    Ok(())
+                }
+                Ok(_) => Err(fail("observer_misreports_message", "proposal (stateless)".into())),
+                Err(e) if e.is_panic() => Err(panic_failure(P, "observer.process_incoming_message(proposal, stateless)", &e)),
+                Err(e) => Err(fail(&format!("observer_rejects_genuine_proposal|{}", e.class()), format!("stateless observer: {}", e.text()))),
+            }
+        } else {
+            for c in &self.stateless_cached {
+                match mls_rs::group::CachedProposal::from_bytes(c) {
+                    Ok(cp) => g.insert_proposal(cp),
+                    Err(e) => return Err(fail("cached_proposal_does_not_decode", format!("{e:?}"))),
+                }
+            }
+            match guard(|| g.process_incoming_message_with_time(MlsMessage::from_bytes(bytes)?, t)) {
+                Ok(ExternalReceivedMessage::Commit(_)) => {
+                    self.stateless_cached.clear();
+                    self.stateless = Some(g.snapshot().to_bytes().map_err(|e| fail("observer_snapshot_failed", format!("{e:?}")))?);
+                    self.ev.class("stateless_observer_commits");
+                    Ok(())
+                }
+                Ok(_) => Err(fail("observer_misreports_message", format!("{kind} (stateless)"))),
+                Err(e) if e.is_panic() => Err(panic_failure(P, &format!("observer.process_incoming_message({kind}, stateless)"), &e)),
+                Err(e) => Err(fail(
+                    &format!("observer_rejects_genuine_{kind}|{}", e.class()),
+                    format!("stateless observer (snapshot + {} proposals cached outside the group): {}", self.stateless_cached.len(), e.text()),
+                )),
+            }
+        }
+    }
+
+    fn compare_stateless(&mut self, w: &World) -> CaseResult {
+        let (Some(snap), Some(client)) = (self.stateless.clone(), self.client.as_ref()) else { return Ok(()) };
+        let g = guard(|| client.load_group(ExternalSnapshot::from_bytes(&snap)?)).map_err(|e| fail(&format!("observer_cannot_restore_snapshot|{}", e.class()), e.text().into()))?;
+        let mg = w.parties[w.members()[0]].g();
+        if g.group_context() != mg.context() {
+            return Err(fail("observer_context_differs|stateless", format!("stateless observer epoch {} members' epoch {}", g.group_context().epoch, mg.context().epoch)));
+        }
+        let ot = g.export_tree().map_err(|e| fail("observer_export_tree", format!("{e:?}")))?;
+        if ot != mg.export_tree().to_bytes().expect("tree") {
+            return Err(fail("observer_tree_differs", "stateless observer".into()));
+        }
+        Ok(())
+    }
+
     fn compare(&mut self, w: &World) -> CaseResult {
+        self.compare_stateless(w)?;
         let Some(g) = &self.group else { return Ok(()) };
         let members = w.members();
         let m = members[0];
@@ -159,8 +225,11 @@ impl Obs {
                 ("application", Err(e)) => {
                     return Err(fail(&format!("observer_rejects_current_epoch_ciphertext|{}", e.class()), format!("jitter {:?}: {}", self.jitter, e.text())));
                 }
-                ("proposal", Ok(ExternalReceivedMessage::Proposal(_))) => {}
-                ("commit" | "external_commit", Ok(ExternalReceivedMessage::Commit(_))) => self.commits_tracked += 1,
+                ("proposal", Ok(ExternalReceivedMessage::Proposal(_))) => self.stateless_step(w, kind, &bytes)?,
+                ("commit" | "external_commit", Ok(ExternalReceivedMessage::Commit(_))) => {
+                    self.commits_tracked += 1;
+                    self.stateless_step(w, kind, &bytes)?;
+                }
                 (k, Ok(_)) => return Err(fail("observer_misreports_message", k.to_string())),
                 (k, Err(e)) => {
                     return Err(fail(
@@ -250,7 +319,37 @@ impl Observer for Obs {
             return Ok(());
         }
         self.catch_up(w)?;
-        match pick(op[2], 7) {
+        match pick(op[2], 9) {
+            7 | 8 => {
+                // a prospective member asks to be added (sender type new_member_proposal)
+                let members = w.members();
+                if members.len() >= 10 || notes.resumption_psk_pending {
+                    return Ok(());
+                }
+                let m = members[pick(op[3], members.len())];
+                let gi = guard(|| w.parties[m].g().group_info_message(true)).map_err(|e| fail(&format!("group_info_failed|{}", e.class()), e.text().into()))?;
+                let p = w.new_party();
+                for i in 0..3u8 {
+                    w.parties[p].pstore.put(&[b'p', b's', b'k', i], &[i + 1; 32]);
+                }
+                let t = w.now();
+                let joiner = &w.parties[p];
+                let r = guard(|| joiner.client.external_add_proposal(&gi, None, vec![op[4] as u8], Default::default(), Default::default(), Some(t)));
+                match r {
+                    Ok(msg) => {
+                        let bytes = msg.to_bytes().expect("enc");
+                        w.log_wire("proposal", &bytes);
+                        w.inflight.push(Flight { bytes, sender: usize::MAX, sender_leaf: u32::MAX, kind: FlightKind::Proposal, payload: vec![], aad: vec![op[4] as u8], epoch: w.epoch });
+                        notes.pending_adds.push(p);
+                        w.flush(op[4])?;
+                        self.catch_up(w)?;
+                        self.ev.class("new_member_add_proposals");
+                        self.ev.nontrivial(&(w.epoch, "new member proposal"));
+                    }
+                    Err(e) if e.is_panic() => return Err(panic_failure(P, "Client::external_add_proposal", &e)),
+                    Err(e) => return Err(fail(&format!("external_add_proposal_failed|{}", e.class()), e.text().into())),
+                }
+            }
             0 | 1 => {
                 // snapshot -> bytes -> load
                 let g = self.group.as_ref().unwrap();
@@ -320,6 +419,7 @@ impl Observer for Obs {
                         let bytes = m.to_bytes().expect("enc");
                         self.external_proposals += 1;
                         self.ev.class(&format!("external_proposals_kind_{kind}"));
+                        self.stateless_step(w, "proposal", &bytes)?;
                         // broadcast: the members must accept it (checked when the traffic is flushed)
                         w.inflight.push(Flight { bytes: bytes.clone(), sender: usize::MAX, sender_leaf: u32::MAX, kind: FlightKind::Proposal, payload: vec![], aad: vec![], epoch: w.epoch });
                         if let Some(p) = add_candidate {
@@ -388,6 +488,8 @@ pub fn run(ctx: &Ctx) -> ! {
             commits_tracked: 0,
             external_proposals: 0,
             snapshots: 0,
+            stateless: None,
+            stateless_cached: vec![],
         },
         &|_, o| {
             o.ev.class_n("commits_tracked_by_observer", o.commits_tracked);
